@@ -21,7 +21,8 @@ def mixObjective (groups : List (List Row)) (ms : List Mixture) : Rat :=
   (List.zipWith (fun g (m : Mixture) => freq groups g * m.y) groups ms).sum
 
 theorem objSimple_eq (groups : List (List Row)) (is : List Interp) :
-    objSimple groups is = (List.zipWith (fun g (r : Interp) => freq groups g * r.y) groups is).sum := rfl
+    objSimple groups is = (List.zipWith (fun g (r : Interp) => freq groups g * r.y) groups is).sum :=
+  src_objSimple groups is
 
 theorem zipWith_sum_le {α β} (G : List (List Row)) (f : List Row → α → Rat) (h : List Row → β → Rat) :
     ∀ (as : List α) (bs : List β), as.length = G.length → bs.length = G.length →
@@ -78,7 +79,7 @@ theorem constraint_extremes_uniform (xm : Metric) (hx : IsConstraintMetric xm) :
        simp [Metric.eval, actualCounts, CM.predicted_positives, CM.n, CM.positives, CM.negatives, a, b, c, d]; done)
 
 theorem gridVal_self {N : Nat} (hN : 1 ≤ N) : gridVal N N = 1 := by
-  unfold gridVal
+  rw [src_gridVal]
   have : (N : Rat) ≠ 0 := by
     have : (0 : Rat) < N := by exact_mod_cast hN
     linarith
